@@ -31,6 +31,31 @@ theorem bump_ne (c : UInt32) : (bump c == c) = false := by
   have := c.toNat_lt
   omega
 
+theorem accepts_iff (w : Bool) (my : Nat) (c : UInt32) (fr : Bool) (s n : Nat) (t : Bool) :
+    accepts w my c fr s n t = true ↔ (fr = w ∧ s = my ∧ n = c.toNat ∧ t = false) := by
+  simp [accepts, and_assoc]
+
+theorem handleRequest_acc (d : Device) (fr : Bool) (s n : Nat) (p : Payload) (t : Bool)
+    (h : accepts true d.sess (bump d.decCtr) fr s n t = true) :
+    (d.handleRequest (.ct fr s n p t)).2 = .accepted p := by
+  simp only [Device.handleRequest, h, if_true]
+  cases p <;> rfl
+
+theorem handleRequest_rej (d : Device) (fr : Bool) (s n : Nat) (p : Payload) (t : Bool)
+    (h : accepts true d.sess (bump d.decCtr) fr s n t = false) :
+    d.handleRequest (.ct fr s n p t) = ({ d with decCtr := bump d.decCtr }, .decryptionError) := by
+  simp [Device.handleRequest, h]
+
+theorem handleResponse_acc (r : Reader) (fr : Bool) (s n : Nat) (p : Payload) (t : Bool)
+    (h : accepts false r.sess (bump r.decCtr) fr s n t = true) :
+    r.handleResponse (.ct fr s n p t) = ({ r with decCtr := bump r.decCtr }, .accepted p) := by
+  simp [Reader.handleResponse, h]
+
+theorem handleResponse_rej (r : Reader) (fr : Bool) (s n : Nat) (p : Payload) (t : Bool)
+    (h : accepts false r.sess (bump r.decCtr) fr s n t = false) :
+    r.handleResponse (.ct fr s n p t) = ({ r with decCtr := bump r.decCtr }, .decryptionError) := by
+  simp [Reader.handleResponse, h]
+
 /-- encryption counters and the per-direction ghost log -/
 def World.encCtr (w : World) (r : Bool) : UInt32 := if r then w.rdr.encCtr else w.dev.encCtr
 def World.dirLog (w : World) (r : Bool) : List (Bool × UInt32 × Bytes) :=
